@@ -1,4 +1,171 @@
-(* C04 placeholder while proofs are being written; replaced below. *)
-From PV Require Import Sim.Model.
-Theorem C04_placeholder : True. Proof. exact I. Qed.
-Print Assumptions C04_placeholder.
+(* C04 - Simulator lifecycle: commands, states and notifications follow the protocol.
+
+   M1 (sequential, Sim/Lifecycle*.v): theorems over Sim/Model.v's own command
+   semantics [do_cmd] / [run_cmds], for every program, every fuel and every
+   command list.  M2 (overlap, Sim/Overlap*.v): theorems over the two-thread
+   transition system, for every interleaving of its steps. *)
+From Coq Require Import ZArith List Bool.
+From PV Require Import Sim.Model Sim.Lifecycle Sim.LifecycleProofs Sim.Overlap Sim.OverlapProofs.
+Import ListNotations.
+Local Open Scope Z_scope.
+
+(* ---- clause: each command takes effect or is refused exactly as the
+   documented run-state / replication-state rules prescribe ---- *)
+Theorem C04_accept_refuse_table :
+  forall fuel p st s c, reachable fuel p st s ->
+    snd (do_cmd fuel p s c)
+    = table c (rs s) (ps s) (end_time s <=? clock s) (bound_ok c (clock s)).
+Proof. exact accept_refuse_table. Qed.
+Print Assumptions C04_accept_refuse_table.
+
+(* ---- clause: a refused command changes nothing and notifies nobody
+   (for every state, reachable or not) ---- *)
+Theorem C04_refused_changes_nothing :
+  forall fuel p s c s', do_cmd fuel p s c = (s', ResRefused) -> s' = s.
+Proof. exact refused_changes_nothing. Qed.
+Print Assumptions C04_refused_changes_nothing.
+
+Theorem C04_refused_notifies_nobody :
+  forall fuel p s c s', do_cmd fuel p s c = (s', ResRefused) -> new_ntfs s s' = [].
+Proof. exact refused_notifies_nobody. Qed.
+Print Assumptions C04_refused_notifies_nobody.
+
+(* ---- clause: subscribers see a well-formed stream.  [lifecycle_ok] runs the
+   command list and feeds what each command notifies to the monitor automaton
+   Lifecycle.mon_step (START_REPLICATION once and first; STARTING immediately
+   followed by START; START / STOP strictly alternating; TIME_CHANGED only
+   between START and STOP; all timestamps non-decreasing; WARMUP at most once,
+   between START and STOP, with the warm-up time as timestamp; END_REPLICATION
+   once, outside START..STOP, and last); it also checks after every command
+   that the monitor is quiet, that the state is one of the four quiescent
+   combinations and that state and monitor agree.
+   Not covered by the monitor: that WARMUP *is* emitted when the run passes the
+   warm-up time (a liveness clause; checked on the implementation by the
+   harness oracle only). ---- *)
+Theorem C04_stream_wf :
+  forall fuel p st cs, lifecycle_ok fuel p (init_sim st) mon_dead cs = true.
+Proof. exact stream_wf. Qed.
+Print Assumptions C04_stream_wf.
+
+(* TIME_CHANGED carries the time of the event about to run: one pass of the
+   run loop notifies TIME_CHANGED(t) exactly when t, the time of the first
+   pending event, differs from the clock, and then executes that event at
+   clock t; step() always notifies *)
+Theorem C04_time_changed_is_next_event :
+  forall p s e r, exists l,
+    ntfs (take_event p s e r) = rev l ++ rev (tc_part s e) ++ ntfs s /\
+    trace (take_event p s e r) = (e, ev_time e) :: trace s /\
+    (forall n, In n l -> n = NStopping \/ n = NWarmup (ev_time e)).
+Proof. exact time_changed_is_next_event. Qed.
+Print Assumptions C04_time_changed_is_next_event.
+
+Theorem C04_step_time_changed_is_event :
+  forall p s e r, exists l,
+    ntfs (step_event p s e r) = rev l ++ NTime (ev_time e) :: ntfs s /\
+    trace (step_event p s e r) = (e, ev_time e) :: trace s /\
+    (forall n, In n l -> n = NStopping \/ n = NWarmup (ev_time e)).
+Proof. exact step_time_changed_is_event. Qed.
+Print Assumptions C04_step_time_changed_is_event.
+
+(* ---- clause: after END_REPLICATION the simulator reports ENDED, refuses
+   start, step and stop (and bounded runs and end_replication), and its run
+   thread has terminated ---- *)
+Theorem C04_ended_absorbing :
+  forall fuel p st s, reachable fuel p st s -> ps s = PEnded ->
+    rs s = REnded /\ worker s = WFinal /\ alive_count s = 0%nat /\
+    forall c, leaves_ended c = false -> do_cmd fuel p s c = (s, ResRefused).
+Proof. exact ended_absorbing. Qed.
+Print Assumptions C04_ended_absorbing.
+
+(* the hypotheses are satisfiable: initialize + start reaches ENDED *)
+Example C04_ended_reachable :
+  exists s, reachable 100 [[ASched (MAbs (TNum 4)) 5 1]; []] SWarnPause s /\ ps s = PEnded.
+Proof.
+  exists (fst (run_cmds 100 [[ASched (MAbs (TNum 4)) 5 1]; []] (init_sim SWarnPause)
+                        [CInit (mkRepl 0 2 16); CStart])).
+  split; [exists [CInit (mkRepl 0 2 16); CStart]; reflexivity|vm_compute; reflexivity].
+Qed.
+
+(* ---- clause: the run thread terminates after cleanup (and only the states
+   INITIALIZED / STARTED have a live run thread) ---- *)
+Theorem C04_cleanup_terminates_worker :
+  forall fuel p s,
+    let s' := fst (do_cmd fuel p s CCleanup) in
+    snd (do_cmd fuel p s CCleanup) = ResOk /\
+    worker s' = WNone /\ alive_count s' = 0%nat /\ rs s' = RNotInit /\ ps s' = PNotInit.
+Proof. exact cleanup_terminates_worker. Qed.
+Print Assumptions C04_cleanup_terminates_worker.
+
+Theorem C04_run_thread_alive_iff_runnable :
+  forall fuel p st s, reachable fuel p st s ->
+    alive_count s = (if ps_runnable (ps s) then 1%nat else 0%nat).
+Proof. exact alive_iff_runnable. Qed.
+Print Assumptions C04_run_thread_alive_iff_runnable.
+
+(* ---- clause: this also holds when a command overlaps the run thread's own
+   transitions - PARTIAL.
+   Full statement: for every interleaving of a command with the run thread,
+   every quiescent state satisfies M1's invariants (Overlap.qgood).
+   Proved: (a) the generic inductive-invariant lemma for closed tables; (b) the
+   statement under the sequential discipline; (c) the statement when commands
+   overlap the run thread only inside the windows Overlap.safe_pair
+   (_partial); (d) for unrestricted overlap a classification of what can be
+   wrong; (e) refutations of the full statement with explicit schedules - the
+   two races named in the property and the lost wake-up of end_replication.
+   Missing: M2 abstracts CPython's preemption to the listed shared accesses, and
+   the implementation is tied to M2 by sampled forced interleavings only. *)
+Theorem C04_closed_invariant :
+  forall (succ : ostate -> list ostate) (start : ostate) (T : PM.t ostate) (P : ostate -> bool),
+    memb T start = true -> closed succ T = true -> forallb P (states T) = true ->
+    forall s, reach succ start s -> P s = true.
+Proof. exact closed_invariant. Qed.
+Print Assumptions C04_closed_invariant.
+
+Theorem C04_sequential_quiescent_good :
+  forall s, oreach false pol_quiescent s -> quiescent s = true -> qgood s = true.
+Proof. exact sequential_quiescent_good. Qed.
+Print Assumptions C04_sequential_quiescent_good.
+
+Theorem C04_quiescent_consistent_partial :
+  forall s, oreach false pol_safe s -> quiescent s = true -> qgood s = true.
+Proof. exact quiescent_consistent_partial. Qed.
+Print Assumptions C04_quiescent_consistent_partial.
+
+Theorem C04_overlap_quiescent_classified :
+  forall s, oreach false pol_any s ->
+    o_err s = false /\
+    (quiescent s = true ->
+     o_runflag s = false /\ (qgood s = true \/ symptom s = true) /\
+     (o_ps s = PNotInit -> worker_dead s = true)).
+Proof. exact overlap_quiescent_classified. Qed.
+Print Assumptions C04_overlap_quiescent_classified.
+
+Theorem C04_sequential_loose_only_stale_runflag :
+  forall s, oreach true pol_quiescent s -> quiescent s = true ->
+    qgood s = true \/ (o_runflag s = true /\ qgood (up_runflag false s) = true).
+Proof. exact sequential_loose_only_stale_runflag. Qed.
+Print Assumptions C04_sequential_loose_only_stale_runflag.
+
+Theorem C04_overlap_stop_end_refuted :
+  exists s, oreach false pol_any s /\ quiescent s = true /\
+            o_rs s = RStopping /\ o_ps s = PEnded /\ worker_dead s = true /\ qgood s = false.
+Proof. exact overlap_stop_end_refuted. Qed.
+Print Assumptions C04_overlap_stop_end_refuted.
+
+Theorem C04_overlap_start_stopping_refuted :
+  exists s, oreach false pol_any s /\ quiescent s = true /\
+            o_rs s = RStopped /\ o_ps s = PStarted /\ worker_waiting s = true /\
+            starting_lost s = true /\ qgood s = false.
+Proof. exact overlap_start_stopping_refuted. Qed.
+Print Assumptions C04_overlap_start_stopping_refuted.
+
+Theorem C04_overlap_end_replication_lost_wakeup_refuted :
+  exists s, oreach false pol_any s /\ quiescent s = true /\
+            o_rs s = RStopped /\ o_ps s = PEnding /\ worker_waiting s = true /\ qgood s = false.
+Proof. exact overlap_end_replication_lost_wakeup_refuted. Qed.
+Print Assumptions C04_overlap_end_replication_lost_wakeup_refuted.
+
+(* the hypotheses of the overlap theorems are satisfiable by non-trivial states *)
+Example C04_overlap_ended_reachable :
+  exists s, oreach false pol_quiescent s /\ quiescent s = true /\ o_ps s = PEnded /\ qgood s = true.
+Proof. exact ended_reachable_sequentially. Qed.
